@@ -88,7 +88,9 @@ func init() {
 			"`##a` is read as text '#' followed by tag #a (the specification does not exclude it)",
 			"totals observed through service.AggregateTotalsByTags for all and through `klog tags -v -c --decimal --no-style` and `klog json` for every 8th document of T",
 		},
-		Units: func(t fw.Tier) int { return len(planSpans([]int{c14Space(t).Count(), c14TotalsCount(), len(c14Hand)}, 50000)) },
+		Units: func(t fw.Tier) int {
+			return len(planSpans([]int{c14Space(t).Count(), c14TotalsCount(), len(c14Hand)}, 50000))
+		},
 		RunUnit: func(c *fw.Ctx, unit int) {
 			sp := planSpans([]int{c14Space(c.Tier).Count(), c14TotalsCount(), len(c14Hand)}, 50000)[unit]
 			for i := sp.lo; i < sp.hi; i++ {
